@@ -105,6 +105,9 @@ def _env_of(interp, frame, extra):
         env.update(d)
     env.update(frame.locals)
     env.update(interp.reg.ghost_env)
+    # indices of the (enclosing) loops with invariants: `_i_<ordinal>`
+    for o, t in getattr(frame, 'loop_index', {}).items():
+        env['_i_%s' % o] = t
     env.update(extra)
     return env
 
@@ -283,6 +286,7 @@ def _for_symbolic(interp, node, frame, src):
         i = st.fresh_int('_i@' + tag)
         st.assume(z3.And(i >= start, i < n))
         st.assume(interp.truth(_call_pred(interp, spec.invariant, env(i))))
+        frame.loop_index[ordinal] = wrap(i)
         x = models.slist_elem(interp, xs, i)
         if enum_start is not None:
             x = (interp.binop(ast.Add, enum_start, wrap(i - start)), x)
@@ -300,6 +304,7 @@ def _for_symbolic(interp, node, frame, src):
     # exit: all elements consumed
     st.assume(start <= n)
     st.assume(interp.truth(_call_pred(interp, spec.invariant, env(z3.If(start <= n, n, start)))))
+    frame.loop_index[ordinal] = wrap(n)
     if it_cell is not None:
         it_cell.pos = wrap(n)
     if node.orelse:
